@@ -391,7 +391,7 @@ var clauseKeywords = map[string]bool{
 	"use": true, "split": true, "reveal": true, "inline": true, "induction": true, "trigger": true,
 	"unroll": true, "assert": true, "inst": true, "nounfold": true, "unfold": true, "timeout": true,
 	"bounded": true, "havocs": true, "pure": true, "reads": true, "modifies": true, "decreases": true,
-	"effects": true, "case": true, "fuel": true, "establishes": true, "instdepth": true, "useret": true, "initphase": true, "note": true,
+	"effects": true, "case": true, "fuel": true, "defines": true, "establishes": true, "instdepth": true, "useret": true, "initphase": true, "note": true,
 }
 
 // ParseSpecFile reads a contract file. Lines of interest start with "//@" (in .go files) or are
@@ -583,7 +583,7 @@ func ParseSpecFile(path string, pkgPath string) (*SpecFile, error) {
 					return nil, perr(l, "%v", err)
 				}
 				c.E = e
-			case "use", "trigger", "unfold", "useret":
+			case "use", "trigger", "unfold", "useret", "defines":
 				e, err := ParseExpr(rest)
 				if err != nil {
 					return nil, perr(l, "%v", err)
